@@ -755,6 +755,276 @@ def _mutated_through(stmts, names):
     return out
 
 
+def _mutated_through_name(fn, name):
+    """`name` is re-bound by an augmented assignment or stored into
+    (name[...] = / name.attr = / del name[...]) somewhere in the function."""
+    for n in _own_nodes(fn):
+        r_ = None
+        if isinstance(n, (ast.Subscript, ast.Attribute)) and isinstance(
+                getattr(n, 'ctx', None), (ast.Store, ast.Del)):
+            r_ = n.value
+        elif isinstance(n, ast.AugAssign):
+            r_ = n.target
+        while isinstance(r_, (ast.Subscript, ast.Attribute)):
+            r_ = r_.value
+        if isinstance(r_, ast.Name) and r_.id == name:
+            return True
+    return False
+
+
+def _unpack_to_subscripts(fn, rf, log, q):
+    """a, b, c = S  ->  a = S[0]; b = S[1]; c = S[2]  (then inlined as hoisted
+    look-ups) for unpacking targets the reference does not know.  Unpacking
+    and indexing agree on sequences; S is known to be one when
+      * it is a parameter / local that the recorded function indexes with
+        integer constants (same parameter position, same local name) and that
+        is not stored into or augmented anywhere in the function, or
+      * it is the result of +, * or / (numbers, sequences and arrays only; a
+        mapping, set or iterator is not closed under these) whose text is the
+        single recorded definition of an unused recorded local R: R = S is
+        re-introduced and indexed."""
+    params, locs = local_order(fn)
+    ref_locs = rf.get('locals', [])
+    rp = rf.get('params', [])
+    known = set(ref_locs) | set(rp)
+    rtext = ' ; '.join([d for ds in rf.get('defs', {}).values() for d in ds]
+                       + list(rf.get('calls', {}))
+                       + [t[0] for t in rf.get('tests', [])])
+    done = False
+    for blk in _blocks(fn):
+        i = 0
+        while i < len(blk):
+            st = blk[i]
+            i += 1
+            if not (isinstance(st, ast.Assign) and len(st.targets) == 1 and
+                    isinstance(st.targets[0], ast.Tuple) and
+                    len(st.targets[0].elts) >= 2 and all(
+                        isinstance(t, ast.Name)
+                        for t in st.targets[0].elts)):
+                continue
+            tgts = [t.id for t in st.targets[0].elts]
+            if len(set(tgts)) != len(tgts) or any(t in known for t in tgts):
+                continue
+            if any(sum(1 for x in _own_nodes(fn) if isinstance(x, ast.Name)
+                       and x.id == t and isinstance(x.ctx, (ast.Store,
+                                                            ast.Del))) != 1
+                   for t in tgts):
+                continue
+            val, pre = st.value, []
+            if isinstance(val, ast.Name):
+                v = val.id
+                if v in tgts:
+                    continue
+                rname = v
+                if v in params:
+                    if len(rp) != len(params):
+                        continue
+                    rname = rp[params.index(v)]
+                elif v not in ref_locs:
+                    continue
+                if not _re.search(r'(?<![\w.])%s\[\d+\]' % _re.escape(rname),
+                                  rtext):
+                    continue
+                if _mutated_through_name(fn, v):
+                    continue
+                base = v
+            elif isinstance(val, ast.BinOp) and isinstance(val.op, _SEQ_OPS):
+                used = _names(fn) | set(params)
+                cands = [r_ for r_ in ref_locs if r_ not in used and
+                         rf.get('defs', {}).get(r_) == [_n(val)]]
+                if len(cands) != 1 or (_names(val) & set(tgts)):
+                    continue
+                base = cands[0]
+                pre = [ast.copy_location(ast.Assign(
+                    targets=[ast.Name(id=base, ctx=ast.Store())], value=val),
+                    st)]
+                log.append('%s: local %s re-introduced for the unpacked `%s`'
+                           % (q, base, _n(val)))
+            else:
+                continue
+            new = list(pre)
+            for k, t in enumerate(tgts):
+                new.append(ast.copy_location(ast.Assign(
+                    targets=[ast.Name(id=t, ctx=ast.Store())],
+                    value=ast.Subscript(
+                        value=ast.Name(id=base, ctx=ast.Load()),
+                        slice=ast.Constant(value=k), ctx=ast.Load())), st))
+            blk[i - 1:i] = new
+            i += len(new) - 1
+            ast.fix_missing_locations(fn)
+            log.append('%s: unpacking %s = %s -> subscripts of %s'
+                       % (q, ', '.join(tgts), base, base))
+            done = True
+            for t in tgts:
+                if _inline_temp(fn, t):
+                    log.append('%s: hoisted lookup %s inlined' % (q, t))
+            # the block may have shrunk: rescan it from the start
+            i = 0
+    if done:
+        ast.fix_missing_locations(fn)
+
+
+def _scalarise_tuple_locals(fn, rf, log, q):
+    """A local the reference does not know that is only ever bound to tuple
+    displays of one length n and only read as x[<int constant>] or as a whole
+    is replaced by n scalar locals (tuples are immutable values, so no alias
+    can observe the difference):
+        x = (a, b, c)   ->  x_0 = a; x_1 = b; x_2 = c      (a, b, c do not
+                                                            read x)
+        x[1]            ->  x_1
+        x               ->  (x_0, x_1, x_2)   ([..] as the argument of
+                                               np.array / np.asarray)
+    The scalars take the recorded names when a call that receives the whole
+    tuple is recorded with three otherwise unused recorded locals in the same
+    positions."""
+    params, locs = local_order(fn)
+    ref_locs = rf.get('locals', [])
+    for x in [n for n in locs if n not in ref_locs]:
+        own = [n for n in _own_nodes(fn) if isinstance(n, ast.Name)
+               and n.id == x]
+        if len(own) != sum(1 for n in ast.walk(fn) if isinstance(n, ast.Name)
+                           and n.id == x):
+            continue            # also used in a nested function
+        if any(isinstance(n, ast.Lambda) and x in _names(n)
+               for n in _own_nodes(fn)):
+            continue
+        if any(isinstance(n, (ast.Global, ast.Nonlocal)) and x in n.names
+               for n in _own_nodes(fn)):
+            continue
+        stores = [n for n in own if not isinstance(n.ctx, ast.Load)]
+        asg = []
+        for blk in _blocks(fn):
+            for st in blk:
+                if isinstance(st, ast.Assign) and len(st.targets) == 1 and \
+                        isinstance(st.targets[0], ast.Name) and \
+                        st.targets[0].id == x:
+                    asg.append((blk, st))
+        if not asg or len(asg) != len(stores):
+            continue
+        if not all(isinstance(st.value, ast.Tuple) and not any(
+                isinstance(e, ast.Starred) for e in st.value.elts)
+                for _b, st in asg):
+            continue
+        n = len(asg[0][1].value.elts)
+        if n < 2 or any(len(st.value.elts) != n for _b, st in asg):
+            continue
+        if any(x in _names(st.value) for _b, st in asg):
+            continue
+        tried = _in_try(fn)
+        if any(id(st) in tried for _b, st in asg):
+            continue
+        loads = [m for m in own if isinstance(m.ctx, ast.Load)]
+        if not loads:
+            continue
+        parent = {}
+        for p_ in _own_nodes(fn):
+            for ch in ast.iter_child_nodes(p_):
+                parent[id(ch)] = p_
+        elem, whole, ok = {}, [], True
+        for m in loads:
+            p_ = parent.get(id(m))
+            if isinstance(p_, ast.Subscript) and p_.value is m:
+                k = p_.slice
+                if isinstance(k, ast.UnaryOp) and isinstance(
+                        k.op, ast.USub) and isinstance(k.operand,
+                                                       ast.Constant):
+                    k = ast.Constant(value=-k.operand.value) if isinstance(
+                        k.operand.value, int) else k
+                if isinstance(p_.ctx, ast.Load) and isinstance(
+                        k, ast.Constant) and type(k.value) is int and \
+                        -n <= k.value < n:
+                    elem[id(p_)] = k.value % n
+                else:
+                    ok = False
+            elif isinstance(p_, ast.AugAssign) and p_.target is m:
+                ok = False
+            else:
+                whole.append(m)
+        if not ok:
+            continue
+        used = _names(fn) | set(params) | set(ref_locs)
+        fresh = ['%s_%d' % (x, k) for k in range(n)]
+        if any(f in used for f in fresh):
+            continue
+        whole_ids = {id(m) for m in whole}
+
+        class SR(ast.NodeTransformer):
+            def visit_Subscript(self, node):
+                if id(node) in elem:
+                    return ast.copy_location(ast.Name(
+                        id=fresh[elem[id(node)]], ctx=ast.Load()), node)
+                return self.generic_visit(node)
+
+            def visit_Call(self, node):
+                as_list = None
+                if _n(node.func) in ('np.array', 'np.asarray', 'numpy.array',
+                                     'numpy.asarray') and node.args and \
+                        id(node.args[0]) in whole_ids:
+                    as_list = node.args[0]
+                self.generic_visit(node)
+                if as_list is not None and isinstance(node.args[0],
+                                                      ast.Tuple):
+                    node.args[0] = ast.copy_location(ast.List(
+                        elts=node.args[0].elts, ctx=ast.Load()),
+                        node.args[0])
+                return node
+
+            def visit_Name(self, node):
+                if id(node) in whole_ids:
+                    return ast.copy_location(ast.Tuple(
+                        elts=[ast.Name(id=f, ctx=ast.Load()) for f in fresh],
+                        ctx=ast.Load()), node)
+                return node
+        for blk in _blocks(fn):
+            k = 0
+            while k < len(blk):
+                st = blk[k]
+                if any(st is a for _b, a in asg):
+                    new = [ast.copy_location(ast.Assign(
+                        targets=[ast.Name(id=f, ctx=ast.Store())], value=e),
+                        st) for f, e in zip(fresh, st.value.elts)]
+                    blk[k:k + 1] = new
+                    k += len(new)
+                    continue
+                blk[k] = SR().visit(st)
+                k += 1
+        ast.fix_missing_locations(fn)
+        log.append('%s: tuple local %s -> scalars %s' % (q, x,
+                                                          ', '.join(fresh)))
+        # recorded names from a recorded call that receives the whole tuple
+        used = _names(fn) | set(params)
+        for c in [c for c in _own_nodes(fn) if isinstance(c, ast.Call)]:
+            t = _n(c)
+            if not all(_re.search(r'(?<![\w.])%s(?!\w)' % _re.escape(f), t)
+                       for f in fresh):
+                continue
+            pat = _re.escape(t)
+            for f in fresh:
+                pat = _re.sub(r'(?<![\w.])%s(?!\w)' % _re.escape(
+                    _re.escape(f)), lambda m_: r'(\w+)', pat, count=1)
+            if pat.count(r'(\w+)') != n:
+                continue
+            hits = [m_ for m_ in (_re.fullmatch(pat, rc)
+                                  for rc in rf.get('calls', {})) if m_
+                    and len(set(m_.groups())) == n and all(
+                        r_ in ref_locs and r_ not in used
+                        for r_ in m_.groups())]
+            if len(hits) != 1:
+                continue
+            names = list(hits[0].groups())
+            # groups come in textual order of the fresh names in the call
+            order = sorted(range(n), key=lambda k_: _re.search(
+                r'(?<![\w.])%s(?!\w)' % _re.escape(fresh[k_]), t).start())
+            mapping = {fresh[k_]: names[j] for j, k_ in enumerate(order)}
+            if len(set(names)) == n and all(
+                    r_ in ref_locs and r_ not in used for r_ in names):
+                _rename(fn, mapping)
+                for c_, r_ in mapping.items():
+                    log.append('%s: local %s -> %s (recorded argument of %s)'
+                               % (q, c_, r_, _n(c.func)))
+                break
+
+
 def _read_once_unconditionally(body, name):
     """`name` is read exactly once in the statement list, and that read is
     evaluated exactly once whenever the list is entered: it belongs to a
@@ -2177,6 +2447,22 @@ def _live_range(fn, name):
     return (min(lines), max(lines)) if lines else (0, 0)
 
 
+# ---------------------------------------------------------------------------
+# S: sequences taken apart / bundled differently than recorded
+
+_SEQ_OPS = (ast.Add, ast.Mult, ast.Div)
+
+
+def _in_try(fn):
+    """ids of the nodes that lie inside a try statement of the function."""
+    out = set()
+    for n in _own_nodes(fn):
+        if isinstance(n, ast.Try):
+            out |= {id(x) for x in ast.walk(n)}
+    return out
+
+
+
 def _explode_dict_displays(fn, rf, log, q):
     """T = {'a': x, 'b': y}  ->  T = {}; T['a'] = x; T['b'] = y   where the
     reference stores T['a'], T['b'] key by key."""
@@ -3383,6 +3669,110 @@ def _dissolve_built_locals(fn, rf, log, q):
     ast.fix_missing_locations(fn)
 
 
+def _accumulators_to_targets(fn, rf, log, q):
+    """v = <number>; ... v op= e ...; T = {}; T['k'] = v; (reads of v)
+         ->  T = {}; T['k'] = <number>; ... T['k'] op= e ...; (reads of T['k'])
+    for number accumulators v the reference does not know whose value is
+    stored once, directly behind the creation of the local dict T, into a
+    constant key that the recorded function stores to.  Numbers are immutable,
+    so v and T['k'] denote the same value from the store on; before it T is
+    not referenced at all (`T = {}` is moved up to the first accumulator's
+    initialisation, nothing in between mentions T), and the keys enter T in
+    the same order (the accumulators are initialised in the order in which
+    they are stored)."""
+    ref_locs = set(rf.get('locals', []))
+    ref_stores = set(rf.get('stores', []))
+    tried = _in_try(fn)
+    for blk in _blocks(fn):
+        for j, mk in enumerate(blk):
+            if not (isinstance(mk, ast.Assign) and len(mk.targets) == 1 and
+                    isinstance(mk.targets[0], ast.Name) and
+                    isinstance(mk.value, ast.Dict) and not mk.value.keys):
+                continue
+            T = mk.targets[0].id
+            if _single_assign(fn, T) is None or id(mk) in tried:
+                continue
+            inside = {id(n) for s_ in blk[j:] for n in ast.walk(s_)}
+            if any(isinstance(n, ast.Name) and n.id == T and
+                   id(n) not in inside for n in ast.walk(fn)):
+                continue
+            group, k = [], j + 1
+            while k < len(blk):
+                f_ = blk[k]
+                if not (isinstance(f_, ast.Assign) and len(f_.targets) == 1
+                        and isinstance(f_.targets[0], ast.Subscript)
+                        and isinstance(f_.targets[0].value, ast.Name)
+                        and f_.targets[0].value.id == T
+                        and isinstance(f_.targets[0].slice, ast.Constant)
+                        and isinstance(f_.value, ast.Name)):
+                    break
+                group.append((k, f_))
+                k += 1
+            picked, last_init = [], -1
+            for k, f_ in group:
+                v = f_.value.id
+                ttext = _n(f_.targets[0])
+                if v in ref_locs or v == T or ttext not in ref_stores:
+                    break
+                inits = [(i, s_) for i, s_ in enumerate(blk[:j])
+                         if isinstance(s_, ast.Assign) and len(s_.targets) == 1
+                         and isinstance(s_.targets[0], ast.Name)
+                         and s_.targets[0].id == v]
+                if len(inits) != 1:
+                    break
+                i, init = inits[0]
+                c = init.value
+                if not (isinstance(c, ast.Constant) and type(c.value) in (
+                        int, float)) or i <= last_init or id(init) in tried:
+                    break
+                # every other binding of v is an augmented assignment between
+                # the initialisation and the store; every use of v lies in
+                # this block from the initialisation on
+                names = [n for n in ast.walk(fn) if isinstance(n, ast.Name)
+                         and n.id == v]
+                from_init = {id(n) for s_ in blk[i:] for n in ast.walk(s_)}
+                before_store = {id(n) for s_ in blk[i:j] for n in ast.walk(s_)}
+                if any(id(n) not in from_init for n in names):
+                    break
+                augs = {id(a.target) for a in ast.walk(fn)
+                        if isinstance(a, ast.AugAssign)}
+                if any(not isinstance(n.ctx, ast.Load) and
+                       n is not init.targets[0] and not (
+                           id(n) in augs and id(n) in before_store)
+                       for n in names):
+                    break
+                # the slot is stored nowhere else
+                if any(isinstance(n, ast.Subscript) and not isinstance(
+                        n.ctx, ast.Load) and n is not f_.targets[0] and
+                        _n(n) == ttext for n in _own_nodes(fn)):
+                    break
+                picked.append((k, f_, v, i))
+                last_init = i
+            if not picked:      # (picked is a prefix of the stores behind T)
+                continue
+            first = picked[0][3]
+            subst = {v: f_.targets[0] for _k, f_, v, _i in picked}
+
+            class RT(ast.NodeTransformer):
+                def visit_Name(self, node):
+                    if node.id in subst:
+                        new = copy.deepcopy(subst[node.id])
+                        new.ctx = type(node.ctx)()
+                        return ast.copy_location(new, node)
+                    return node
+            drop = {id(f_) for _k, f_, _v, _i in picked}
+            body = [s_ for s_ in blk if id(s_) not in drop and s_ is not mk]
+            pos = body.index(blk[first])
+            body.insert(pos, mk)
+            body = [s_ if s_ is mk else RT().visit(s_) for s_ in body]
+            blk[:] = body
+            for _k, f_, v, _i in picked:
+                log.append('%s: accumulator %s kept in %s' % (
+                    q, v, _n(f_.targets[0])))
+            ast.fix_missing_locations(fn)
+            return _accumulators_to_targets(fn, rf, log, q)
+
+
 def _index_to_unpack(fn, rf, log, q):
     """`T = f(..)` with T read only as `T[0]`, `T[1]`, ..  ->  the recorded
     `L0, L1 = f(..)`.  f must be a package function whose every return is a
@@ -4201,10 +4591,13 @@ def canonicalise(tree, modname, text=None):
         _orient_ifs(fn, rf, log, q)
         _loops_to_reference(fn, rf, log, q)
         _SplitTupleAssign(rf, fn, log, q).visit(fn)
+        _unpack_to_subscripts(fn, rf, log, q)
+        _scalarise_tuple_locals(fn, rf, log, q)
         _merge_accumulators(fn, rf, log, q)
         _merge_forwarded_locals(fn, rf, log, q)
         _dissolve_built_locals(fn, rf, log, q)
         _explode_dict_displays(fn, rf, log, q)
+        _accumulators_to_targets(fn, rf, log, q)
         _dissolve_built_locals(fn, rf, log, q)
         _inline_indexed_comprehensions(fn, rf, log, q)
         _tuple_locals_to_lists(fn, rf, log, q)
